@@ -599,6 +599,7 @@ IS_MISSING = z3.Bool('new_value_equals_MISSING_VALUE')
 @register
 class FunctorOnChangeBooks(Contract):
   prop = 'C18'
+  bounded = True       # stated bound: one update per call (the loop body runs once)
   target = f'{FN}:Functor._on_change'
   raises = {Exception: ()}
   variants = ('own-argument', 'deeper-path')
